@@ -4,7 +4,7 @@ BOUNDS = {
              'variant<int,float,char,NT> (four alternatives, assignment/swap/visit subset): one operation from every pre-state (active index, 32-bit payload, object bytes '
              'before construction and constructor form all symbolic), every (from,to) index pair for assignment/swap/relational operators/two-variant visit; '
              'histories of 3 symbolic operations (10 operation kinds, two objects) from default-constructed; variant<bool,CS> converting construction from char const*',
-    'thorough': 'all entries for all of the above plus variant<NT,int,NT2,short>; histories of 5 operations (4 for the four-alternative variants)',
+    'thorough': 'all entries for all of the above plus variant<NT,int,NT2,short>; histories of 5 operations over all 10 kinds (three alternatives), of 4 over all kinds (two and four alternatives) and of 5 over two halves of the operation set (variant<int,float,char,NT>)',
 }
 ASSUMPTIONS = [
     'C07: etl::variant has no member swap, no throwing get<> and no valueless state: swap is etl::swap(a, b), values are read with get_if (etl) / std::get_if (std)',
@@ -38,15 +38,15 @@ def queries(tier, prop='C07'):
     for vs in (1, 2):
         for e in STEP:
             add(e, vs)
-        for h in (('hist2', 'hist3_core', 'hist3_conv') if quick else ('hist2', 'hist3', 'hist4_core', 'hist4_conv', 'hist5_core')):
+        for h in (('hist2', 'hist3_core', 'hist3_conv') if quick else ('hist2', 'hist3', 'hist4', 'hist5')):
             add(h, vs, budget=300 if quick else 2400)
     add('conv_src', 1)
     for vs in (4, 3) + (() if quick else (6,)):
         for e in (SUBSET if quick else STEP):
             add(e, vs)
         if not quick:
-            for h in ('hist2', 'hist3_core', 'hist3_conv'):
-                add(h, vs, budget=1200)
+            for h in ('hist2', 'hist3', 'hist4') + (('hist5_core', 'hist5_conv') if vs == 3 else ()):
+                add(h, vs, budget=2400)
     if not quick:
         add('conv_src', 3)
     add('conv_cstr', 5, kf_only='C07_variant_converting_ctor_narrowing')
